@@ -101,8 +101,11 @@ func renderScope(s subject, c scopeCase, pkg string) (files map[string]string) {
 	callee := s.Name
 	if s.Kind == "stdpkg" {
 		callee = s.Name + "." + s.Member
+		if c.FileD == "dotReal" || c.FileD == "dotFake" {
+			callee = s.Member
+		}
 	}
-	namesake := !(c.PkgD == "none" && c.ParamD == "none" && c.LocalD == "none" && c.FileD != "fakeImport")
+	namesake := !(c.PkgD == "none" && c.ParamD == "none" && c.LocalD == "none" && c.FileD != "fakeImport" && c.FileD != "dotFake")
 	trigger := s.Normal
 	if namesake && s.FakeArgs != "" {
 		trigger = s.FakeArgs
@@ -131,21 +134,29 @@ func renderScope(s subject, c scopeCase, pkg string) (files map[string]string) {
 		}
 	case "fakeImport":
 		fmt.Fprintf(&b, "\t%s \"example.com/scopes/fake\"\n", s.Name)
+	case "dotReal":
+		fmt.Fprintf(&b, "\t. %q\n", s.Path)
+	case "dotFake":
+		// another package with the same package NAME as the std one
+		fmt.Fprintf(&b, "\t. \"example.com/scopes/fakes/%s\"\n", s.Name)
 	}
 	b.WriteString(")\n\n")
 	b.WriteString("type R struct{}\n\nvar (\n\tgi int\n\tgs string\n\t_  = fmt2.Sprint\n\t_  = R{}\n)\n\n")
-	if c.FileD != "none" {
+	if c.FileD == "realImport" || c.FileD == "fakeImport" {
 		// a use at package level, so that an import shadowed inside the function is not "imported and not used"
 		fmt.Fprintf(&b, "var _ = %s.%s\n\n", s.Name, s.Member)
 	}
+	// package-level namesakes live in ANOTHER file of the package (the parser resolves identifiers per file only)
+	var d strings.Builder
+	fmt.Fprintf(&d, "package %s\n\n", pkg)
 	if c.PkgD == "func" {
-		fmt.Fprintf(&b, "func %s%s { %s }\n\n", s.Name, fakeSig, s.FakeBody)
+		fmt.Fprintf(&d, "func %s%s { %s }\n\n", s.Name, fakeSig, s.FakeBody)
 	}
 	if c.PkgD == "var" && s.Kind == "builtin" {
-		fmt.Fprintf(&b, "var %s = func%s { %s }\n\n", s.Name, fakeSig, s.FakeBody)
+		fmt.Fprintf(&d, "var %s = func%s { %s }\n\n", s.Name, fakeSig, s.FakeBody)
 	}
 	if c.PkgD == "var" && s.Kind == "stdpkg" {
-		fmt.Fprintf(&b, "type fakeT struct{}\n\nfunc (fakeT) %s%s { %s }\n\nvar %s fakeT\n\n", s.Member, fakeSig, s.FakeBody, s.Name)
+		fmt.Fprintf(&d, "type fakeT struct{}\n\nfunc (fakeT) %s%s { %s }\n\nvar %s fakeT\n\n", s.Member, fakeSig, s.FakeBody, s.Name)
 	}
 	// the type of a param / local namesake
 	valType, valInit := "func"+fakeSig, fakeFunc
@@ -172,6 +183,9 @@ func renderScope(s subject, c scopeCase, pkg string) (files map[string]string) {
 	}
 	b.WriteString("\t_, _, _, _, _, _, _, _ = xs, ys, ifs, bs, s, t, fl, gi\n}\n")
 	files["s.go"] = b.String()
+	if c.PkgD != "none" {
+		files["d.go"] = d.String()
+	}
 	return files
 }
 
@@ -225,6 +239,13 @@ func scopesCmd(args []string) {
 	hx.Must(os.MkdirAll(filepath.Join(*work, "fake"), 0o755))
 	hx.Must(os.WriteFile(filepath.Join(*work, "go.mod"), []byte("module example.com/scopes\n\ngo 1.21\n"), 0o644))
 	hx.Must(os.WriteFile(filepath.Join(*work, "fake", "fake.go"), []byte(fakePkgSrc), 0o644))
+	for _, s := range subjects {
+		if s.Kind == "stdpkg" {
+			fd := filepath.Join(*work, "fakes", s.Name)
+			hx.Must(os.MkdirAll(fd, 0o755))
+			hx.Must(os.WriteFile(filepath.Join(fd, "fake.go"), []byte(strings.NewReplacer("package fake", "package "+s.Name, "type R struct", "type FR struct", "*R", "*FR").Replace(fakePkgSrc)), 0o644))
+		}
+	}
 	type rendered struct {
 		s   subject
 		c   scopeCase
@@ -295,7 +316,16 @@ func scopesCmd(args []string) {
 			continue
 		}
 		f := p.Syntax[0]
+		for _, sf := range p.Syntax {
+			if filepath.Base(hx.FileName(fset, sf.Pos())) == "s.go" {
+				f = sf
+			}
+		}
 		src, _ := os.ReadFile(hx.FileName(fset, f.Pos()))
+		calleeName := r.s.Name
+		if r.c.FileD == "dotReal" || r.c.FileD == "dotFake" {
+			calleeName = r.s.Member
+		}
 		o.Src = string(src)
 		trig := map[int]bool{}
 		for i, l := range strings.Split(string(src), "\n") {
@@ -306,7 +336,7 @@ func scopesCmd(args []string) {
 		// what does the callee identifier on the (first) trigger line denote?
 		ast.Inspect(f, func(n ast.Node) bool {
 			id, ok := n.(*ast.Ident)
-			if !ok || id.Name != r.s.Name || !trig[fset.Position(id.Pos()).Line] || o.Resolved != "" {
+			if !ok || id.Name != calleeName || !trig[fset.Position(id.Pos()).Line] || o.Resolved != "" {
 				return true
 			}
 			obj := p.TypesInfo.Uses[id]
@@ -324,6 +354,15 @@ func scopesCmd(args []string) {
 					o.Resolved = "fakeImport"
 				}
 			default:
+				if ob.Pkg() != nil && ob.Pkg() != p.Types {
+					// reached through a dot import
+					if ob.Pkg().Path() == r.s.Path {
+						o.Resolved, o.Real = "dotReal", true
+					} else {
+						o.Resolved = "dotFake"
+					}
+					return true
+				}
 				switch {
 				case ob.Parent() == p.Types.Scope():
 					o.Resolved = "pkg"
